@@ -19,6 +19,7 @@ def cval(z):
 
 class C07(Prop):
     id = "C07"
+    refusal_family = "state"
     trace_module = "TraceStab"
     trace_cfg = "TraceStab.cfg"
     suite_family = ('stab', ('expect', 'overlap'))
